@@ -26,6 +26,7 @@ def make_table(seed: int, n: int, order_seed: int | None = None, missing_plan=No
     for k in (1, 2, 3):
         cols[f'av{k}'] = [1.0 if cols['ch'][i] == k else float(rng.randrange(2)) for i in range(n)]
     cols['u'] = [float(rng.randrange(0, 3)) for _ in range(n)]   # a column few formulas read
+    cols['c0_alt'] = [float(rng.randrange(-2, 4)) for _ in range(n)]   # read only by renamed copies of a formula
     names = list(cols)
     if order_seed is not None:
         random.Random(order_seed).shuffle(names)
@@ -54,7 +55,8 @@ class Gen:
             return ['var', self.rng.choice(INT_COLS + POS_COLS)]
         if r < 0.6:
             return ['beta', self.rng.choice(BETAS)]
-        return ['num', self.rng.choice([0.5, 1.0, 2.0, -1.5, 3.0, 0.25])]
+        return ['num', self.rng.choice([0.5, 1.0, 2.0, -1.5, 3.0, 0.25, 0.09290304, 12.34567891, 1.2345678e-05,
+                                        3.141592653589793, -0.3333333333333333])]
 
     def small(self, depth):
         """Arithmetic expression of moderate magnitude."""
